@@ -89,25 +89,26 @@ type icCfg struct {
 }
 
 type icRun struct {
-	cfg    *icCfg
-	h      *hStore
-	calls  []*icCall
-	loads  []*icLoad
-	clock  int
-	done   []bool
-	stuck  []string
-	leaked []string
-	final  map[int]int // resident map at the end (before Close)
-	finalN int
-	est    int
-	pairs  map[[2]int]string
-	hits   uint64
-	misses uint64
-	closed bool
-	bad    []string
-	noteAt []int // logical time of each listener call
-	km     map[int]int // symbolic key -> actual key (1,2,4 share a shard; 3 lives in another)
-	cur    map[int]*icCall // thread id -> the call it is executing
+	cfg          *icCfg
+	h            *hStore
+	calls        []*icCall
+	loads        []*icLoad
+	clock        int
+	done         []bool
+	stuck        []string
+	leaked       []string
+	leakedAtIdle []string    // store goroutines alive when all clients had finished and Close had returned
+	final        map[int]int // resident map at the end (before Close)
+	finalN       int
+	est          int
+	pairs        map[[2]int]string
+	hits         uint64
+	misses       uint64
+	closed       bool
+	bad          []string
+	noteAt       []int           // logical time of each listener call
+	km           map[int]int     // symbolic key -> actual key (1,2,4 share a shard; 3 lives in another)
+	cur          map[int]*icCall // thread id -> the call it is executing
 }
 
 var errLoad = errors.New("load failed")
@@ -277,6 +278,22 @@ func icBody(cfg *icCfg) (*icRun, func()) {
 		r.stuck = stuckNow("client")
 		if len(r.stuck) > 0 {
 			return
+		}
+		// store goroutines that are still alive although Close has returned and nothing can run any more
+		for _, c := range r.calls {
+			if c.Op.Kind == "close" && c.Ret != 0 {
+				for _, t := range vrt.S.Alive() {
+					if t.ID != 0 && t.ID >= nthreads && !strings.HasPrefix(t.Name, "client") {
+						obj := t.Obj
+						if i := strings.IndexByte(obj, '#'); i >= 0 {
+							obj = obj[:i]
+						}
+						r.leakedAtIdle = append(r.leakedAtIdle, fmt.Sprintf("%s@%s[%s]", t.Name, t.What, obj))
+					}
+				}
+				sort.Strings(r.leakedAtIdle)
+				break
+			}
 		}
 		vrt.NoBranch(func() {
 			for _, op := range cfg.Post {
